@@ -264,11 +264,15 @@ pub fn core_workload(seed: u64, n: u64) -> Digest {
 /// reader of a virtual file system that is sensitive to the exact path string: a path whose hash is even holds a
 /// minimal TZif file whose UTC offset encodes that hash, every other path is absent
 #[cfg(feature = "alloc")]
-fn path_sensitive_reader(path: &str) -> Result<alloc::vec::Vec<u8>, alloc::boxed::Box<dyn core::error::Error + Send + Sync + 'static>> {
+pub type Reader = fn(&str) -> Result<alloc::vec::Vec<u8>, alloc::boxed::Box<dyn core::error::Error + Send + Sync + 'static>>;
+
+/// the content of the virtual file system at `path`: `Err(hash)` when the path is absent
+#[cfg(feature = "alloc")]
+pub fn virtual_file(path: &str) -> Result<alloc::vec::Vec<u8>, u64> {
     let mut h = Digest::new();
     h.b(path.as_bytes());
     if h.0 % 2 == 1 {
-        return Err("No such file (virtual)".into());
+        return Err(h.0);
     }
     let off = (h.0 % 80_000) as i32 - 40_000;
     let mut f = alloc::vec::Vec::new();
@@ -286,17 +290,37 @@ fn path_sensitive_reader(path: &str) -> Result<alloc::vec::Vec<u8>, alloc::boxed
     Ok(f)
 }
 
+#[cfg(feature = "alloc")]
+fn path_sensitive_reader(path: &str) -> Result<alloc::vec::Vec<u8>, alloc::boxed::Box<dyn core::error::Error + Send + Sync + 'static>> {
+    virtual_file(path).map_err(|_| "No such file (virtual)".into())
+}
+
+/// digest of the resolution workload with a caller-supplied reader over the same virtual file system (the std
+/// binary passes one that reports absent files as `std::io::Error`s of several kinds: the kind of error a reader
+/// reports must not change any result)
+#[cfg(feature = "alloc")]
+pub fn resolution_digest(reader: Reader) -> Digest {
+    let mut d = Digest::new();
+    resolution_workload_with(&mut d, reader);
+    d
+}
+
 /// TZ value resolution through settings with every shape of directory list and a path-sensitive reader: the
 /// zone obtained identifies the exact path that was read
 #[cfg(feature = "alloc")]
 fn resolution_workload(d: &mut Digest) {
+    resolution_workload_with(d, path_sensitive_reader)
+}
+
+#[cfg(feature = "alloc")]
+fn resolution_workload_with(d: &mut Digest, reader: Reader) {
     use tz::TimeZoneSettings;
     const DIRS: [&[&str]; 12] = [&[], &["/d1"], &["/d1", "/d2"], &["/d1/"], &["/d1//", "/d2/"], &[""], &["", "/d1"], &["rel"], &["rel/", "."], &["/"], &["..", "/d1/../d2"], &["/usr/share/zoneinfo", "/share/zoneinfo", "/etc/zoneinfo"]];
     const VALUES: [&str; 30] = [
         "x", "rel", "Europe/Paris", ":x", "::x", "/abs", "/abs/file", "localtime", ":localtime", "", " UTC0 ", "UTC0", "EST5EDT,M3.2.0,M11.1.0", "a/../b", "./rel", "rel/", "//x", ":", "\u{b}UTC0", "UTC0\u{a0}", "America/Argentina/Buenos_Aires", "UTC", "GMT0", ":/etc/localtime", "a", "ab", "abc", "abcd", ":Europe/Paris", "x/",
     ];
     for dirs in DIRS {
-        let settings = TimeZoneSettings::new(dirs, path_sensitive_reader);
+        let settings = TimeZoneSettings::new(dirs, reader);
         for v in VALUES {
             match settings.parse_posix_tz(v) {
                 Ok(z) => {
